@@ -23,6 +23,7 @@ class Registry:
         self.consts = {}      # dotted name -> ('int', v) | ('str', v) | ('bytes', v) | ('enum', cls, member) | ('class', name)
         self.contracts = {}   # key -> dict
         self.exc = dict(BUILTIN_EXC)
+        self.runtime = {}     # name -> python callable: run-time meaning of a spec function (used when a clause is replayed)
         self.specfuns = {}    # name -> callable(engine, st, [V...]) -> V   (ghost / spec functions)
         self._tags = {}
         self._tagc = itertools.count(10)
